@@ -3,7 +3,7 @@
 
    All theorems quantify over every option list: any option types, any data lengths (bytes are N, so
    0..253 is included), duplicates, any order; and over every configuration and previous peer state.
-   Variant [repaired] is what /repo HEAD (d2827a3) implements for pkg/ppp, internal/pppoe and internal/l2tp,
+   Variant [repaired] is what /repo HEAD (97a5489) implements for pkg/ppp, internal/pppoe and internal/l2tp,
    no finding is open.  [defective], [lns_found], [def_restore], [def_rguard] are the behaviours before the fixes
    54fb851 / 95b0af2 / bc32486 / ce9ad2f / 8205ad2 / 7efc399 and only occur in historical _refuted witnesses.
    Since e9950ea a PPPoE session whose LCP leaves Opened after startNCP is torn down (owner [Ended]): on PPPoE a
@@ -677,6 +677,21 @@ Theorem C06_ipcp_refuse_irrelevant :
 Proof. exact ipcp_refuse_irrelevant. Qed.
 Print Assumptions C06_ipcp_refuse_irrelevant.
 
+(* WHEN ProcessConfReq writes the subscriber's proposals into peer.* is also the implementation's choice
+   ([ic_stage]: option by option as /repo HEAD does, or only from a request acceptable as a whole).  The verdict
+   never depends on it; the recorded state is the previous one or the option-by-option one; for a request
+   answered with a Configure-Ack both choices coincide.  All theorems about ipcp_input, object histories and
+   sessions are stated for an arbitrary configuration / choice argument and so hold for both. *)
+Theorem C06_ipcp_staging_free :
+  forall c p os,
+  fst (ipcp_req_c c p os) = fst (ipcp_req c p os) /\
+  (snd (ipcp_req_c c p os) = p \/ snd (ipcp_req_c c p os) = snd (ipcp_req c p os)) /\
+  (is_good (fst (ipcp_req c p os)) = true -> ipcp_req_c c p os = ipcp_req c p os).
+Proof.
+  intros c p os. split; [apply ipcp_req_c_verdict|]. split; [apply ipcp_req_c_peer|apply ipcp_req_c_good].
+Qed.
+Print Assumptions C06_ipcp_staging_free.
+
 (* The property says when LCP must not ACKNOWLEDGE; which values a Configure-Nak suggests (the magic number
    for a looped-back one, the MRU for a too small one, the authentication protocol) is left open.  For EVERY
    result that differs from the model's only in the data of the Nak'd options (same option types, same
@@ -710,9 +725,9 @@ Print Assumptions C06_lcp_nak_choice_free_auth.
 
 (* /repo HEAD's policies are admissible instances: it refuses nothing, and its Nak values are the model's *)
 Example C06_head_choices_admissible :
-  (forall a, ic_refuse (mk_ipcp_cfg None None) a = false) /\
+  (forall a, ic_refuse (mk_ipcp_cfg None None) a = false) /\ ic_stage (mk_ipcp_cfg None None) = false /\
   (forall fl magic p opts, res_sim (fst (lcp_req fl magic p opts)) (fst (lcp_req fl magic p opts))).
-Proof. split; [reflexivity|intros; apply res_sim_refl]. Qed.
+Proof. split; [reflexivity|]. split; [reflexivity|intros; apply res_sim_refl]. Qed.
 Print Assumptions C06_head_choices_admissible.
 
 (* ---- LCP in a session: "its own magic number" is the one it has put on the wire ------------- *)
